@@ -114,6 +114,7 @@ def gen_cases(tier, seed):
                       "dtype": rnd.choice(["uint8", "uint16", "float32"]), "channels": 1,
                       "encoding": "raw", "storage": rnd.choice(["flat", "gzip", "sharded"]),
                       "strategy": "on disk", "vseed": rnd.randrange(2 ** 32)})
+    cases.append({"kind": "repo_tests"})
     return cases
 
 
@@ -178,7 +179,34 @@ def _read_level(np, pio, sc, nc, dt):
     return a
 
 
+def _repo_tests(prop_obs_key):
+    """The repository's own unit tests as one more workload for the contracts (child process,
+    contracts attached through sitecustomize)."""
+    import os
+    import tempfile
+
+    from harness import cli
+    fd, report = tempfile.mkstemp(prefix="repotests-", suffix=".jsonl")
+    os.close(fd)
+    try:
+        rc, summary, broken = cli.run_repo_tests(report)
+        rep = cli.read_report(report)
+    finally:
+        os.unlink(report)
+    obs = {"repo_test_runs_under_contracts": 1,
+           "repo_tests_contract_evaluations": rep["child_contract_evaluations"],
+           "repo_tests_summary": [summary[:100]]}
+    v = []
+    if broken:
+        v.append({"kind": "contract-broken-while-the-repository's-own-tests-ran",
+                  "detail": " | ".join(b[:200] for b in broken)})
+    return {"violations": v, "obs": obs, "evals": 1, "sigs": [],
+            "sample": {"kind": "repo_tests", "summary": summary[:100]}}
+
+
 def run_case(case):
+    if case.get("kind") == "repo_tests":
+        return _repo_tests("c06")
     import numpy as np
     from neuroglancer_scripts import accessor as accessor_mod
     from neuroglancer_scripts import (downscaling, dyadic_pyramid, file_accessor,
@@ -483,4 +511,6 @@ def gates(obs, tier):
             "default_chunk_size_three_scales", 0) > 0,
         "downscale_contract_evaluated": ce.get("downscale", 0) > 1000,
         "damaged_source_scales": obs.get("damaged_source_runs", 0) > 5,
+        "downscale_contract_evaluated_under_the_repository_tests": obs.get(
+            "repo_tests_contract_evaluations", {}).get("downscale", 0) > 0,
     }
